@@ -417,9 +417,21 @@ func runHistory(hc histCase) {
 		run.Count("init:doc")
 	}
 	if judged {
+		initMode, finalMode := "-", "-"
+		if hc.Init != nil {
+			m := hc.Mode
+			if m == 0 {
+				m = 0o644
+			}
+			initMode = fmt.Sprintf("%o", m)
+		}
+		if st, err := os.Stat(path); err == nil {
+			finalMode = fmt.Sprintf("%o", st.Mode().Perm())
+		}
 		line := fmt.Sprintf("H %s %d %s", initTok, len(modelOps), strings.Join(modelOps, " "))
-		obs := fmt.Sprintf("RES %s FILES %s FINAL %s", strings.Join(results, " "), strings.Join(digests, " "), finalCanon)
-		run.Case(id, strings.TrimSpace(line), obs)
+		line = strings.TrimSpace(line) + " MODE " + initMode
+		obs := fmt.Sprintf("RES %s FILES %s FINAL %s MODE %s", strings.Join(results, " "), strings.Join(digests, " "), finalCanon, finalMode)
+		run.Case(id, line, obs)
 	} else {
 		run.Count("unjudged:case-variant-field")
 		run.Evaluations++
